@@ -1,6 +1,7 @@
 import Zog.Props.FactsOK
 import Zog.Order
 import Zog.OrderAll
+import Zog.ParamsOrder
 
 /-!
 # C09 — results do not depend on map iteration or key insertion order
@@ -153,5 +154,14 @@ example : witnessNoPost.WF := by
           exact absurd ((by simpa using h1 : "b" = a).symm.trans (by simpa using h2 : "b" = b)) hab
         · simp at hb
     · simp at ha
+
+/-- **Messages do not depend on the enumeration order of an issue's Params map**: any two
+    enumerations of one map (permutations of each other, keys distinct) give the same message under the
+    default formatter, for every language table, code and type — also when a parameter's value holds
+    another parameter's placeholder (defect D35 before its repair). -/
+theorem message_independent_of_param_order (m : LangMap) (code dtype : String) (ps qs : List (String × String))
+    (h : ps.Perm qs) (hk : (ps.map (·.1)).Nodup) :
+    defaultFmt m code dtype ps = defaultFmt m code dtype qs :=
+  defaultFmt_perm m code dtype ps qs h hk
 
 end Zog.Props.C09
